@@ -12,13 +12,16 @@ Bindings:
      invariant is evaluated in every explored state.
 """
 import concurrent.futures as cf
+import hashlib
 import json
 import os
 import subprocess
 
-from lib import (BIN, JAVA_OPTS_TRACE, SPECS, ToolError, extract_replay, log, read_ndjson, tlc, workdir)
+from lib import (BIN, JAVA_OPTS_TRACE, REPO, SPECS, ToolError, extract_replay, log, read_ndjson, tlc, workdir)
 
 SPEC = os.path.join(SPECS, "ParserCursor")
+# runs against another checkout (VERIF_REPO, mutation testing) use their own scratch directories / TLC names
+WTAG = "" if os.path.realpath(REPO) == "/repo" else "_" + hashlib.sha256(os.path.realpath(REPO).encode()).hexdigest()[:6]
 NEST_CAP = 200
 BUGS = ["skip_drops_trailing", "eof_drops_pending", "attach_twice", "skip_node_with_pending", "eof_no_offset_fix",
         "take_doc_offset", "unglue_drops_trivia", "take_stale_offset"]
@@ -82,10 +85,10 @@ CHECK_DEADLOCK FALSE
 def design_check(chk, tier, tag):
     """Exhaustive model check of the cursor protocol + the BUG variants (anti-vacuity)."""
     if tier == "quick":
-        mains = [("mid2", 2, "mid", 6)]
-        bugs = BUGS[:4] if tag == "c10" else []
+        mains = [("full1", 1, "full", 3), ("min2", 2, "min", 3)]
+        bugs = BUGS[:4] if tag.startswith("c10") else []
     else:
-        mains = [("full2", 2, "full", 8), ("min4", 4, "min", 8)]
+        mains = [("mid2", 2, "mid", 8), ("min3", 3, "min", 8)]
         bugs = BUGS
     jobs = []
     for (n, mt, prof, wk) in mains:
